@@ -66,18 +66,29 @@ Theorem C44_model_histories_genuine :
   forall ls s os, project init ls = Some (s, os) -> genuine_from 1 os = true.
 Proof. exact model_history_genuine. Qed.
 
+(* part 3: from every reachable state the server's own steps do lead to such a state, and every sequence of
+   own steps is finite (at most mu s of them): once the environment stops, every fair run gets there. *)
+Theorem C44_reaches_quiescence :
+  forall s, reachable s ->
+    exists ls s', Forall (fun l => external l = false) ls /\ run s ls = Some s' /\ quiescent s' = true.
+Proof. exact thm_reaches_quiescence. Qed.
+
+Theorem C44_own_steps_bounded :
+  forall ls s s', reachable s -> Forall (fun l => external l = false) ls -> run s ls = Some s' ->
+    (length ls + mu s' <= mu s)%nat.
+Proof. exact own_steps_bounded. Qed.
+
 (* A history that passes the checker's trace-inclusion test (witness re-executed by [validate]) is a
-   history of the model, so it satisfies both clauses; if it ends with the harness's quiescence claim the
-   witness ends in a reachable quiescent model state with the same per-client receptions, to which
-   C44_quiescent_delivered applies. *)
+   history of the model, so it satisfies clauses 10 and 12, and it leads to a reachable model state in which
+   every client has received exactly what the history records (from where the three parts above apply). *)
 Theorem C44_accepted_history_safe :
   forall h w, validate h w = true -> monotone_b h = true /\ genuine_from 1 h = true.
 Proof. exact accepted_history_safe. Qed.
 
-Theorem C44_accepted_history_quiescent :
-  forall h w, validate h w = true -> ends_quiescent h = true ->
-    exists s, reachable s /\ quiescent s = true /\ (forall c, versions_c s c = recvs c h).
-Proof. exact accepted_history_quiescent. Qed.
+Theorem C44_accepted_history_reachable :
+  forall h w, validate h w = true ->
+    exists s, reachable s /\ (forall c, versions_c s c = recvs c h).
+Proof. exact accepted_history_reachable. Qed.
 
 (* Clause 11 (the liveness clause as Check.v evaluates it): on every history of the model that ends in a
    quiescent state without shutdown, every client that was upgraded and has not been disconnected by the
@@ -86,11 +97,6 @@ Theorem C44_model_histories_delivered :
   forall ls s os, project init ls = Some (s, os) -> quiescent s = true -> shutting_down os = false ->
     delivered_list os = true.
 Proof. exact model_history_delivered. Qed.
-
-(* ... hence on every history the checker accepts: code 11 can only fire together with code 1. *)
-Theorem C44_accepted_history_delivered :
-  forall h w, validate h w = true -> shutting_down h = false -> delivered_b h = true.
-Proof. exact accepted_history_delivered. Qed.
 
 (* The shape of the current watch.go (regenerated into coq/Gen/WatchShape.v on every run) is the one the
    model transcribes: channel capacities 1 with non-blocking sends, result stored before the clients are
@@ -129,8 +135,8 @@ Proof. eexists. eexists. split; [vm_compute; reflexivity|]. vm_compute. split; r
 
 Example C44_validate_satisfiable :
   let h := [OAttempt 1 false; ORes 1 101; OChange 2; OSignal 1; ORecv 1 2; OQuiesce] in
-  match accept 1000 h with Accepted w => validate h w = true /\ ends_quiescent h = true | _ => False end.
-Proof. vm_compute. split; reflexivity. Qed.
+  match accept 1000 h with Accepted w => validate h w = true | _ => False end.
+Proof. vm_compute. reflexivity. Qed.
 
 Print Assumptions C44_inv_pending.
 Print Assumptions C44_client_monotone.
@@ -142,7 +148,8 @@ Print Assumptions C44_quiescent_iff.
 Print Assumptions C44_model_histories_monotone.
 Print Assumptions C44_model_histories_genuine.
 Print Assumptions C44_accepted_history_safe.
-Print Assumptions C44_accepted_history_quiescent.
+Print Assumptions C44_accepted_history_reachable.
+Print Assumptions C44_reaches_quiescence.
+Print Assumptions C44_own_steps_bounded.
 Print Assumptions C44_model_histories_delivered.
-Print Assumptions C44_accepted_history_delivered.
 Print Assumptions C44_code_shape_as_modelled.
